@@ -520,8 +520,10 @@ def updClass (k : Kind Float) (pm : PM Float) (pop : List (Ind Float)) (pm' : PM
   else if !holdsUpd num k pm pop pm' then "wrong-value"
   else "-"
 
-def verdict (agree : Bool) (cls : String) (model : Sexp) : Verdict :=
-  { agree, holds := cls == "-", cls, model }
+/-- `valid` (is the input inside the region the property quantifies over?) is reported with the model
+output, for the evidence. -/
+def verdict (agree : Bool) (cls : String) (model : Sexp) (valid : Bool := true) : Verdict :=
+  { agree, holds := cls == "-", cls, model := .list [.atom (if valid then "valid" else "outside"), model] }
 
 /-- `(gen (pm ..) (dist ..) (par α β) (ants k) (seed s))` -/
 def handleGen (args : List Sexp) (impl : Sexp) : Option Verdict := do
@@ -536,7 +538,7 @@ def handleGen (args : List Sexp) (impl : Sexp) : Option Verdict := do
   match impl with
   | .atom "panic" =>
     let predicted := (greedyTour num pm n).isNone || (ants > 0 && mayPanic pm d α β)
-    pure (verdict predicted (if valid then "panic" else "-") (.atom (if predicted then "panic" else "no-panic")))
+    pure (verdict predicted (if valid then "panic" else "-") (.atom (if predicted then "panic" else "no-panic")) valid)
   | .atom "timeout" => pure (verdict false "timeout" (.atom "-"))
   | .list [.atom "ok", tS, wS] =>
     let ts ← natLists? "tours" tS
@@ -545,7 +547,7 @@ def handleGen (args : List Sexp) (impl : Sexp) : Option Verdict := do
       | .tours mts => (mts == ts, toursToSexp mts)
       | .panic => (false, .atom "panic")
       | .badWitness => (false, .atom "badwitness")
-    pure (verdict agree (genClass pm n ants ts valid) model)
+    pure (verdict agree (genClass pm n ants ts valid) model valid)
   | _ => none
 
 /-- `(upd kind (pm ..) (pop (ind route obj)*))` -/
@@ -557,17 +559,17 @@ def handleUpd (args : List Sexp) (impl : Sexp) : Option Verdict := do
   let valid := kindValid k && pmOk pm && popValid pm.dim pop
   if !ctorOk k then
     let isErr := match impl with | .atom "ctor-err" => true | _ => false
-    return verdict isErr "-" (.atom "ctor-err")
+    return verdict isErr "-" (.atom "ctor-err") false
   let m := update k pm pop
   let modelS := match m with | some pm' => pmToSexp pm' | none => .atom "panic"
   match impl with
-  | .atom "panic" => pure (verdict m.isNone (if valid then "panic" else "-") modelS)
-  | .atom "err" => pure (verdict false (if valid then "err" else "-") modelS)
-  | .atom "ctor-err" => pure (verdict false (if valid then "err" else "-") modelS)
+  | .atom "panic" => pure (verdict m.isNone (if valid then "panic" else "-") modelS valid)
+  | .atom "err" => pure (verdict false (if valid then "err" else "-") modelS valid)
+  | .atom "ctor-err" => pure (verdict false (if valid then "err" else "-") modelS valid)
   | .list [.atom "ok", pS] =>
     let pm' ← pm? "pm" pS
     let agree := match m with | some mp => pmClose mp pm' | none => false
-    pure (verdict agree (if valid then updClass k pm pop pm' else "-") modelS)
+    pure (verdict agree (if valid then updClass k pm pop pm' else "-") modelS valid)
   | _ => none
 
 structure StepIn where
@@ -601,13 +603,22 @@ def judgeStep (i : StepIn) (impl : Sexp) : Option Verdict := do
   let valid := validG && kindValid i.k
   if !ctorOk i.k then
     let isErr := match impl with | .atom "ctor-err" => true | _ => false
-    return verdict isErr "-" (.atom "ctor-err")
+    return verdict isErr "-" (.atom "ctor-err") false
   match impl with
-  | .atom "ctor-err" => pure (verdict false (if valid then "err" else "-") (.atom "-"))
+  | .atom "ctor-err" => pure (verdict false (if valid then "err" else "-") (.atom "-") valid)
   | .atom "timeout" => pure (verdict false "timeout" (.atom "-"))
   | .atom "gen-panic" =>
     let predicted := (greedyTour num i.pm n).isNone || (i.ants > 0 && mayPanic i.pm i.d i.α i.β)
-    pure (verdict predicted (if valid then "panic" else "-") (.atom (if predicted then "gen-panic" else "no-panic")))
+    pure (verdict predicted (if valid then "panic" else "-") (.atom (if predicted then "gen-panic" else "no-panic")) valid)
+  | .list [.atom "eval-panic", tS, wS] =>
+    -- the harness' objective function refuses NaN / -inf tour lengths
+    let ts ← natLists? "tours" tS
+    let wits ← natLists? "wit" wS
+    let (agree, model) := match generate num i.pm dist i.α i.β n i.ants wits with
+      | .tours mts => (mts == ts && (mts.map (tourLen dist)).any (fun o => o.isNaN || o == -(1.0 / 0.0)), toursToSexp mts)
+      | _ => (false, .atom "-")
+    let gc := genClass i.pm n i.ants ts validG
+    pure (verdict agree (if gc != "-" then gc else if valid then "panic" else "-") model valid)
   | .list [.atom "upd-panic", tS, wS, oS] =>
     let ts ← natLists? "tours" tS
     let wits ← natLists? "wit" wS
@@ -617,7 +628,7 @@ def judgeStep (i : StepIn) (impl : Sexp) : Option Verdict := do
       | .updPanic mts mobjs => mts == ts && listClose mobjs objs
       | _ => false
     let gc := genClass i.pm n i.ants ts validG
-    pure (verdict agree (if gc != "-" then gc else if valid then "panic" else "-") (stepOutSexp m))
+    pure (verdict agree (if gc != "-" then gc else if valid then "panic" else "-") (stepOutSexp m) valid)
   | .list [.atom "ok", tS, wS, oS, pS] =>
     let ts ← natLists? "tours" tS
     let wits ← natLists? "wit" wS
@@ -634,7 +645,7 @@ def judgeStep (i : StepIn) (impl : Sexp) : Option Verdict := do
       else if !valid then "-"
       else if oc != "-" then oc
       else updClass i.k i.pm (mkPop ts objs) pm'
-    pure (verdict agree cls (stepOutSexp m))
+    pure (verdict agree cls (stepOutSexp m) valid)
   | _ => none
 
 /-- `(run name variant instance iters seed)` ↦ `(outcome (gens G) (upds U) (bad (k clause)*))` -/
